@@ -29,3 +29,18 @@ package rojson
 //@   ensures [passes-the-item-and-the-operator-parameters|C18] arg(call.Unmarshal, 0) == v
 //@   ensures [returns-its-error|C18] result1 == res(call.Unmarshal, 0)
 
+// The operators themselves: each is one ro.Map / ro.MapErr / ro.Filter around its lambda.
+
+//@ func Marshal
+//@   note the operator is the lift of its own lambda (Marshal$1 above) by ro.MapErr and of nothing else
+//@   props C18
+//@   maypanic
+//@   track call.*
+//@   ensures [is-the-lift-of-its-own-lambda|C18] count(call.ANY) == 1 && called(call.MapErr)
+
+//@ func Unmarshal
+//@   note the operator is the lift of its own lambda (Unmarshal$1 above) by ro.MapErr and of nothing else
+//@   props C18
+//@   maypanic
+//@   track call.*
+//@   ensures [is-the-lift-of-its-own-lambda|C18] count(call.ANY) == 1 && called(call.MapErr)
